@@ -26,7 +26,8 @@ ASSUMPTIONS = [
 EXHAUSTIVE = {"quick": False, "thorough": False}
 
 CODINGS = [[], ["gzip"], ["deflate"], ["deflate-raw"], ["zstd"], ["x-gzip"]]
-STACKS = [["gzip", "zstd"], ["zstd", "gzip"], ["deflate", "gzip"], ["gzip", "gzip"], ["zstd", "deflate-raw"], ["gzip", "identity"]]
+STACKS = [["gzip", "zstd"], ["zstd", "gzip"], ["deflate", "gzip"], ["gzip", "gzip"], ["zstd", "deflate-raw"], ["gzip", "identity"],
+          ["x-gzip", "deflate"], ["deflate", "x-gzip"], ["x-gzip", "zstd"]]  # alias spelling inside a stack (seed C12-H)
 EX_OPS = [["read", None], ["read", 0], ["read", 1], ["read", 2], ["read", 3], ["read", 7], ["read1", None], ["read1", 1], ["read1", 2], ["read1", 7], ["readinto", 1], ["readinto", 3]]
 EX_TAILS = [["read", None], ["readloop", 1], ["readloop", 3], ["read1loop", 2], ["readintoloop", 2], ["stream", 1], ["stream", None], ["read_chunked", 2], ["iter", None]]
 
